@@ -12,10 +12,11 @@ from concurrent.futures import ThreadPoolExecutor
 
 VERIF = os.path.dirname(os.path.dirname(os.path.abspath(__file__)))
 SPEC = os.path.join(VERIF, "spec")
-HARNESS = os.path.join(VERIF, "harness")
-WORK = os.path.join(VERIF, "work")
-EVID = os.path.join(VERIF, "evidence")
-REPO = "/repo"
+# the three overrides exist for mutant runs on scratch copies (tools/mutant_run.sh); registered checks never set them
+HARNESS = os.environ.get("VERIF_HARNESS", os.path.join(VERIF, "harness"))
+WORK = os.environ.get("VERIF_WORK", os.path.join(VERIF, "work"))
+EVID = os.environ.get("VERIF_EVID", os.path.join(VERIF, "evidence"))
+REPO = os.environ.get("VERIF_REPO", "/repo")
 YX = os.path.join(HARNESS, "target", "debug", "yx")
 
 EXIT_OK, EXIT_VIOLATION, EXIT_TOOL = 0, 1, 2
